@@ -1,12 +1,13 @@
 (* Single entry point of all executable models:
    run_model id params rows  — ids are the property numbers / sub-models. *)
 Require Import Verif.common.Prelude.
-Require Import Verif.model.Vec Verif.model.Arc Verif.model.IntResult Verif.model.CStr Verif.model.Callback Verif.model.Slice Verif.model.Waker Verif.model.CView Verif.model.Glue Verif.model.Life Verif.model.Group Verif.model.LayoutCheck Verif.model.Bindgen Verif.model.BindgenHeader.
+Require Import Verif.model.Vec Verif.model.Arc Verif.model.IntResult Verif.model.CStr Verif.model.Callback Verif.model.Slice Verif.model.Waker Verif.model.CView Verif.model.Glue Verif.model.Life Verif.model.Group Verif.model.LayoutCheck Verif.model.Bindgen Verif.model.BindgenHeader Verif.model.XMod.
 
 Definition run_model (m : Z) (params : list Z) (rows : list (list Z)) : list (list Z) :=
   match m with
   | 1%Z => run_gen params rows
   | 4%Z => run_group params rows
+  | 5%Z => run_xmod params rows
   | 10%Z => run_carc params rows
   | 11%Z => run_cvec params rows
   | 12%Z => run_slice params rows
